@@ -1,6 +1,9 @@
 use crate::Stream;
 
+pub mod c01;
 pub mod c02;
+pub mod c05;
+pub mod c13;
 pub mod c03;
 pub mod c04;
 pub mod c07;
@@ -22,6 +25,9 @@ pub mod c20;
 pub fn lookup(name: &str) -> Option<Box<dyn Stream>> {
     match name {
         "c19" => Some(Box::new(c19::C19::new())),
+        "c01" => Some(Box::new(c01::C01::new())),
+        "c05" => Some(Box::new(c05::C05::new())),
+        "c13" => Some(Box::new(c13::C13::new())),
         "c02" => Some(Box::new(c02::C02::new())),
         "c03" => Some(Box::new(c03::C03::new())),
         "c04" => Some(Box::new(c04::C04::new())),
